@@ -25,18 +25,18 @@ CELL_TYPES_OK = {
 }
 # (function, kind of foreign call, class of the lock held) — confirmed by reading, one reason each
 FOREIGN_UNDER_LOCK = {
-    ('<_ as Subscription>::unsubscribe', 'unsubscribe', '_#self'): 'blanket Option-cell subscription unsubscribes the subscription it owns',
-    ('<ops::finalize::FinalizerObserver as Observer>::complete', 'closure', '_#func'): 'finalizer runs under the guard of its own callback cell (C15.N5)',
-    ('<ops::finalize::FinalizerObserver as Observer>::error', 'closure', '_#func'): 'same',
-    ('<ops::finalize::FinalizerSubscription as Subscription>::unsubscribe', 'closure', '_#func'): 'same',
-    ('<ops::ref_count::ShareOp as Observable>::actual_subscribe', 'subscribe', 'MutRc<ops::ref_count::InnerShareOp>#0'): 'share(): first subscriber connects under the state cell so that the source is subscribed exactly once (C11.P-b)',
-    ('<ops::ref_count::ShareOpThreads as Observable>::actual_subscribe', 'subscribe', 'MutArc<ops::ref_count::InnerShareOp>#0'): 'same (thread-safe instance)',
-    ('<ops::throttle::ThrottleObserver as Observer>::complete', 'unsubscribe', '_#task_handler'): 'cancels the trailing task it owns (through the blanket cell subscription)',
-    ('<ops::throttle::ThrottleObserver as Observer>::error', 'unsubscribe', '_#task_handler'): 'same',
-    ('<MutArc<ops::combine_latest::CombineLatestObserver> as Observer>::next', 'closure', 'MutArc<ops::combine_latest::CombineLatestObserver>#self'): 'combine_latest applies the user combinator to the two latest values kept in the shared cell',
-    ('<MutRc<ops::combine_latest::CombineLatestObserver> as Observer>::next', 'closure', 'MutRc<ops::combine_latest::CombineLatestObserver>#self'): 'same (local instance)',
-    ('<scheduler::Remote as Future>::poll', 'poll', 'MutArc<scheduler::HandleInfo>#handle_info'): 'the task runs under its handle cell so that cancellation waits for it (C19.H3)',
-    ('<scheduler::TaskHandle as Subscription>::unsubscribe', 'unsubscribe', 'MutArc<scheduler::HandleInfo>#0'): 'unsubscribes the subscription the task produced',
+    ('<_ as Subscription>::unsubscribe', 'unsubscribe'): 'blanket Option-cell subscription unsubscribes the subscription it owns',
+    ('<ops::finalize::FinalizerObserver as Observer>::complete', 'closure'): 'finalizer runs under the guard of its own callback cell (C15.N5)',
+    ('<ops::finalize::FinalizerObserver as Observer>::error', 'closure'): 'same',
+    ('<ops::finalize::FinalizerSubscription as Subscription>::unsubscribe', 'closure'): 'same',
+    ('<ops::ref_count::ShareOp as Observable>::actual_subscribe', 'subscribe'): 'share(): first subscriber connects under the state cell so that the source is subscribed exactly once (C11.P-b)',
+    ('<ops::ref_count::ShareOpThreads as Observable>::actual_subscribe', 'subscribe'): 'same (thread-safe instance)',
+    ('<ops::throttle::ThrottleObserver as Observer>::complete', 'unsubscribe'): 'cancels the trailing task it owns (through the blanket cell subscription)',
+    ('<ops::throttle::ThrottleObserver as Observer>::error', 'unsubscribe'): 'same',
+    ('<MutArc<ops::combine_latest::CombineLatestObserver> as Observer>::next', 'closure'): 'combine_latest applies the user combinator to the two latest values kept in the shared cell',
+    ('<MutRc<ops::combine_latest::CombineLatestObserver> as Observer>::next', 'closure'): 'same (local instance)',
+    ('<scheduler::Remote as Future>::poll', 'poll'): 'the task runs under its handle cell so that cancellation waits for it (C19.H3)',
+    ('<scheduler::TaskHandle as Subscription>::unsubscribe', 'unsubscribe'): 'unsubscribes the subscription the task produced',
 }
 CONTROLS = [
     'L3a|cycle CtlAbBa',
@@ -57,7 +57,21 @@ def lock_graph(cx):
     foreign = {}
     n_fns = 0
     n_acq = 0
+    # private helpers (non-pub, not a trait-impl method) that are called from inside the crate are analysed where they
+    # are inlined, not as roots of their own: extracting a few statements into a helper must not create a new site
+    called = set()
+    for fn in F.fns.values():
+        for b in fn['blocks']:
+            t = b['t']
+            if t['k'] == 'call' and t['f']['o'] == 'const' and 'fn' in t['f']:
+                r = t['f']['fn'].get('res')
+                if r and r.get('local') and r.get('d') in F.fns:
+                    called.add(r['d'])
     for fn in sorted(F.fns.values(), key=lambda f: f['key']):
+        if fn['key'] in called and fn['kind'] in ('fn', 'assoc_fn') and not fn.get('pub'):
+            im0 = F.impl_of_fn(fn)
+            if im0 is None or not im0.get('trait'):
+                continue
         g = cx.graph(fn['key'])
         held = lock_scopes(g)
         cls = {}
@@ -93,7 +107,7 @@ def lock_graph(cx):
                 kind = 'poll'
             if kind:
                 for c in hc:
-                    foreign.setdefault((label, kind, c), (g.loc(n), node_desc(g, n)))
+                    foreign.setdefault((label, kind), (g.loc(n), node_desc(g, n), c))
     return edges, foreign, n_fns, n_acq
 
 
@@ -129,7 +143,7 @@ def check(cx):
         cyc = [c for c in _cycles(edges) if any('verif_controls' in s_[0] or 'CtlAbBa' in s_[0] for s_ in edges.get((c[0], c[1]), []))]
         if cyc:
             res.append(Finding(ID, 'L3a', 'cycle CtlAbBa', False, 'lock-order cycle: ' + ' -> '.join(cyc[0]), 'src/verif_controls.rs'))
-        for (label, kind, c), (loc, desc) in sorted(foreign.items()):
+        for (label, kind), (loc, desc, c) in sorted(foreign.items()):
             if 'verif_controls' in label:
                 res.append(Finding(ID, 'L3b', '%s|%s' % (label, kind), False, 'foreign call under lock %s' % c, loc, [desc]))
         return res
@@ -169,8 +183,8 @@ def check(cx):
     if n_acq < 150:
         res.append(Finding(ID, 'L3a', 'floor', False, 'only %d guard acquisitions analysed, expected >= 150' % n_acq))
     # L3b
-    for key, (loc, desc) in sorted(foreign.items()):
-        label, kind, c = key
+    for key, (loc, desc, c) in sorted(foreign.items()):
+        label, kind = key
         why = FOREIGN_UNDER_LOCK.get(key)
         if why:
             res.append(Finding(ID, 'L3b', '%s|%s' % (label, kind), True, 'tabled: ' + why, loc))
